@@ -12,6 +12,9 @@ CHECKS = {
     'C01': (MC, 'explicit-state exploration of generated programs x environments x schedules on the real Solver, against a chaotic-iteration reference evaluator; prompt-tree exploration of real returns',
             'Every generated program up to the size bound, every input environment and rank permutation, and every return within d deviations of the base returns is executed on the real solver; verdict, diagnostics and abort are compared with an independent least-fixed-point evaluator.',
             'Trusted: refeval (60 lines, no queue/trackers), the form definitions as subject. Bounds in evidence.', '5/C01'),
+    'C02': (MC, 'deviation-bounded exploration of real returns (prompt tree) and isolated line definitions under an open environment; every computed line compared with an instruction oracle built from the bundled template speak texts (instruction grammar) and cited transcriptions',
+            'Every line with an oracle entry in every explored (complete or partial) solution equals the official instruction applied to the other lines of the same solution; carries are compared on both ends; non-triviality counted per line.',
+            'Trusted: hv/c02oracle.py transcriptions (cited), hv/c02_template_rules.py grammar, hv/pdfread.py. Lines without an oracle are listed in evidence and not claimed. Form 1040 line 37 read as 24 - 33 (C15). One known finding.', '5/C02'),
     'C03': (MC, 'exhaustive bounded exploration of programs/returns x schedules; oracle = re-evaluation of every stored value on the final stores',
             'For every explored execution each solution value is re-read and its definition re-run on the final inputs and values; attempt logs show no stale reads.',
             'Trusted: the harness accessors. Values outside the alphabets not reached.', '5/C03'),
